@@ -115,6 +115,10 @@ def serializer_config(name):
         from sim.pool import m_edge
 
         return SerializerConfig(globalns=dict(m_edge.GLOBALNS))
+    if name == "globalns2":
+        from sim.pool import m_edge
+
+        return SerializerConfig(globalns=dict(m_edge.GLOBALNS2))
     if name == "latin1":
         return SerializerConfig(encoding="ISO-8859-1", xml_version="1.1", indent="\t")
     raise KeyError(name)
@@ -653,6 +657,10 @@ def build_ops(gen_docs=None):
         ops.append(op_tree_ser(name, factory, "globalns", None, g))
         ops.append(op_ser_json(name, factory, "globalns", None, g))
         ops.append(op_dict_encode(name, factory, "globalns", "dict", None, g))
+    for name, (factory, ck) in C.OBJS_GLOBALNS2.items():
+        g = group_of(ck)
+        ops.append(op_ser_xml(name, factory, "lxml", "globalns2", "none", None, g))
+        ops.append(op_ser_json(name, factory, "globalns2", None, g))
     # JSON
     for name, (text, ck, needs) in list(C.JSON.items()) + list(C.BAD_JSON.items()) + list(gen_docs["json"].items()):
         g = group_of(ck[5:] if ck and ck.startswith("list:") else ck)
@@ -679,7 +687,7 @@ def build_ops(gen_docs=None):
     for table in (C.XML, C.XML_FILES, C.BAD_XML, gen_docs["xml"], C.JSON, C.BAD_JSON, gen_docs["json"]):
         for name, (_, ck, _) in table.items():
             doc_ck[name] = ck
-    obj_ck = {name: ck for name, (_, ck) in list(C.OBJS.items()) + list(C.OBJS_GLOBALNS.items())}
+    obj_ck = {name: ck for name, (_, ck) in list(C.OBJS.items()) + list(C.OBJS_GLOBALNS.items()) + list(C.OBJS_GLOBALNS2.items())}
     for op in ops:
         parts = op.name.split(":")
         if op.kind == "parse_xml":
